@@ -635,6 +635,7 @@ func checkC16(r *Report) {
 	}
 	// OP-DOMAIN: operators forwarded to the version-constraint parser
 	markerOpDomainRule(r, p, pk, opConsts, spell)
+	markerEvaluatedRule(r, loadResolve("", true), "C16/MARKER-EVALUATED")
 	stringerCurrentRule(r, p, "C16/STRINGER-CURRENT", "resolve/pypi", "markerOp")
 	// PLATFORM-DEFINED
 	ipk := p.pkg("resolve/pypi/internal")
